@@ -119,8 +119,36 @@ def surgery : Op
           .int m.rhs.length]
   | _ => none
 
+def parseRows (rv : Val) : Option (List DoseRow) := do
+  let rl ← rv.list?
+  rl.mapM (fun r => match r with
+    | .list [t, a, d] => do
+      some (⟨← Val.opt? Val.rat? t, ← Val.opt? Val.rat? a, ← Val.opt? Val.rat? d⟩ : DoseRow)
+    | _ => none)
+
+/-- `C10.setdata default_duration datasets`: a sequence of `set_data` calls; a dataset is `n`
+    (no dose information) or a list of `[id rows]` → the regimens held afterwards -/
+def setData : Op
+  | [dv, dsv] => do
+    let dflt ← Val.rat? dv
+    let dl ← dsv.list?
+    let ds ← dl.mapM (fun d => match d with
+      | .none => some (none : Option (List (String × List DoseRow)))
+      | .list inds => do
+        let l ← inds.mapM (fun x => match x with
+          | .list [.str label, rows] => do some (label, ← parseRows rows)
+          | _ => none)
+        some (some l)
+      | _ => none)
+    match setDataRun dflt none ds with
+    | .error e => some [errVal (errName e)]
+    | .ok none => some [.str "ok", .none]
+    | .ok (some r) => some [.str "ok", .list (r.map (fun (label, evs) =>
+        .list [.str label, .list (evs.map eventVal)]))]
+  | _ => none
+
 def ops : List (String × Op) :=
   [("C10.event", event), ("C10.pace", paceOp), ("C10.pacemulti", paceMultiOp),
-   ("C10.table", table), ("C10.rows", rows), ("C10.surgery", surgery)]
+   ("C10.table", table), ("C10.rows", rows), ("C10.setdata", setData), ("C10.surgery", surgery)]
 
 end ChiDriver.C10
